@@ -280,6 +280,73 @@ def _fault_groups():
             ("a JSX conversion raises", g_jsx), ("a child raises inside script/style", g_rawtext)]
 
 
+def _twins():
+    """(properties, description, thunk, expected): computations on values that are EQUAL (== and
+    hash) to one another but differ in type -- True / 1 / 1.0, False / 0 / 0.0 / -0.0, a plain
+    string / a str subclass / HTML() of the same characters -- run in this order at the very start
+    of the process, each with the result the property text gives.  A result remembered under a key
+    that does not tell them apart (a memo, an lru_cache, an interned table) makes a later one wrong."""
+    import hashlib
+    from .trees import StrSub
+    A = {"C01", "C03", "C15", "C16", "C18"}
+    K = {"C02", "C14", "C18", "C01"}
+    E = {"C01", "C02", "C04", "C18"}
+    out = []
+    for v, txt in [(True, ""), (1.0, "1.0"), (1, "1"), (0.0, "0.0"), (False, None), (0, "0"), (-0.0, "-0.0"),
+                   (2, "2"), (2.0, "2.0")]:
+        want = "<i></i>" if txt is None else f'<i a="{txt}"></i>'
+        out.append((A, f"attribute value {v!r}", (lambda v=v: str(Tag("i", a=v))), want))
+    for v in [1.0, True, 1, 0, False, 0.0, -0.0, 3.0, 3]:
+        out.append((K, f"child {v!r}", (lambda v=v: str(Tag("i", v))), f"<i>{v}</i>"))
+        out.append((K, f"list item {v!r}", (lambda v=v: str(TagList(v, "x"))), f"{v}x"))
+    for first, second, s in [("text", "html", "a<b&c"), ("html", "text", "d<e&f"), ("sub", "html", "g<h"), ("html", "sub", "i<j")]:
+        mk = {"text": lambda s: s, "html": HTML, "sub": StrSub}
+        esc = lambda s: s.replace("&", "&amp;").replace("<", "&lt;")  # noqa: E731
+        for kind in (first, second, first):
+            w = s if kind == "html" else esc(s)
+            out.append((E, f"{kind} child {s!r}", (lambda k=kind, s=s, mk=mk: str(Tag("p", mk[k](s)))), f"<p>{w}</p>"))
+            out.append((E, f"{kind} among children {s!r}", (lambda k=kind, s=s, mk=mk: str(Tag("p", mk[k](s), Tag("b")))),
+                        f"<p>\n  {w}\n  <b></b>\n</p>"))
+    for first, second, s in [("text", "html", 'k"<'), ("html", "text", "m'<")]:
+        mk = {"text": lambda s: s, "html": HTML}
+        for kind in (first, second, first):
+            w = s if kind == "html" else s.replace("<", "&lt;").replace('"', "&quot;").replace("'", "&apos;")
+            out.append((A | {"C04"}, f"{kind} attribute value {s!r}", (lambda k=kind, s=s, mk=mk: str(Tag("p", title=mk[k](s)))),
+                        f'<p title="{w}"></p>'))
+    out.append((E | {"C03"}, "html_escape text then attribute", lambda: [htmltools.html_escape('n"<'), htmltools.html_escape('n"<', attr=True)],
+                ['n"&lt;', 'n&quot;&lt;']))
+    out.append((E | {"C03"}, "html_escape attribute then text", lambda: [htmltools.html_escape("o'<", attr=True), htmltools.html_escape("o'<")],
+                ["o&apos;&lt;", "o'&lt;"]))
+    out.append((E, "HTML + text, text + HTML", lambda: [str(HTML("<b>") + "p<"), str("p<" + HTML("<b>")), str(HTML("p<") + "<b>")],
+                ["<b>p&lt;", "p&lt;<b>", "p<&lt;b&gt;"]))
+    for v in ["x<", HTML("x<"), "x<"]:
+        r = "x<" if isinstance(v, HTML) else "x&lt;"
+        out.append(({"C18", "C11"}, f"head_content name of {type(v).__name__} x<", (lambda v=v: htmltools.head_content(v).name),
+                    "headcontent_" + hashlib.sha1(r.encode("utf-8")).hexdigest()))
+    out.append(({"C16", "C18"}, "css values", lambda: [htmltools.css(a=1), htmltools.css(a=True), htmltools.css(a=1.0), htmltools.css(b=0), htmltools.css(b=0.0)],
+                ["a:1;", "a:True;", "a:1.0;", "b:0;", "b:0.0;"]))
+    out.append(({"C16", "C18"}, "class tokens", lambda: [str(Tag("i", class_="a").add_class(HTML("a"))), str(Tag("i", class_=HTML("a")).add_class("a")),
+                                                         Tag("i", class_="a b").has_class("a"), Tag("i", class_=HTML("a b")).has_class(HTML("b"))],
+                ['<i class="a a"></i>', '<i class="a a"></i>', True, True]))
+    return out
+
+
+def twin_checks(ctx) -> None:
+    prop = getattr(ctx, "prop", None)
+    n = 0
+    for props, name, th, want in _twins():
+        if prop is not None and prop not in props:
+            continue
+        n += 1
+        got = _quiet(th)
+        if got != ("ok", want):
+            ctx.count(("twin", name), True, "values equal to earlier ones but of another type")
+            ctx.violation("a value that is equal (==) to one used earlier but of another type (True / 1 / 1.0, False / 0 / 0.0, "
+                          "text / str subclass / HTML of the same characters) is treated like the earlier one", {"step": name},
+                          {"impl_output": repr(got)[:300], "expected": repr(want)[:300]})
+    ctx.extra["twin_checks_for_this_property"] = n
+
+
 def prelude(ctx=None) -> int:
     """Runs the fault groups; after each group the probes tagged with the check's property are
     re-evaluated and must equal what they gave before any fault.  Returns the number of
@@ -292,6 +359,9 @@ def prelude(ctx=None) -> int:
         return _quiet(thunk)
 
     prop = getattr(ctx, "prop", None)
+    if ctx is not None and not getattr(ctx, "_twins_done", False):
+        ctx._twins_done = True
+        twin_checks(ctx)
     probes = [(name, th) for props, name, th in _probes() if prop is None or prop in props]
     base = [(name, _quiet(th)) for name, th in probes]
     for gname, g in _fault_groups():
